@@ -135,6 +135,19 @@ def check_group2(run, rule, F, crate, group, expect, only=None, what=None):
                 # (an impl of a crate-private extension trait cannot be called from outside; where specified functions use it, it is inlined)
                 run.note("unspecified new public function in group %s (not judged): %s" % (group, key))
             else:
+                # an override of a *provided* method that does exactly what the provided method does (written out for this type) changes nothing
+                pk = "%s::%s" % ((f.impl_trait or "").split("::", 1)[-1], f.name)
+                dflt = [g[pk] for g in expect.values() if isinstance(g, dict) and pk in g and isinstance(g[pk], dict) and "outcomes" in g[pk]]
+                same = False
+                if len(dflt) == 1:
+                    try:
+                        same = not summ2.equals_provided(F, f, dflt[0], renames=ren, hyps=invariants_for(f))
+                    except Exception:
+                        same = False
+                if same:
+                    run.ok(rule, key, "override of the provided method %s with the provided method's behaviour" % pk, f.where(), method="semantic summary")
+                    n += 1
+                    continue
                 run.bad(rule, key, "trait method of group %s has no specified summary (new override touching the mechanism)" % group, f.where())
     return n
 
